@@ -169,7 +169,7 @@ class Ctx:
                 'rules': dict(sorted(self.rules_hit.items())),
                 'functions_analysed': sorted(self.functions),
                 'call_sites': self.call_sites,
-                'mir_bodies_in_crate': len(self.prog.bodies),
+                'mir_bodies_in_crate': self.prog.n_fn_bodies,
                 'facts_key': self.prog.key,
                 'samples': self.obligations[:6] + [o for o in self.obligations if not o['ok']][:6],
                 'known_findings_hit': [v['key'] for v in known_hit],
